@@ -20,6 +20,7 @@ mod ksp;
 mod output;
 mod state;
 mod appsearch;
+mod cli;
 
 fn main() {
     // panics of the code under test are recorded as events by util::guarded; keep stderr quiet
@@ -51,6 +52,7 @@ fn main() {
         "output" => output::main(rest),
         "state" => state::main(rest),
         "appsearch" => appsearch::main(rest),
+        "cli" => cli::main(rest),
         "ksp-child" => ksp::child(&rest[0]),
         "robust-child" => robust::child(&rest[0]),
         other => {
